@@ -301,6 +301,10 @@ fn c01(s: &str) -> Option<String> {
     });
     r.err()
 }
+// C01: stabilize is public and takes any rule function, including ones that return a borrowed string different from their input
+fn c01_stab(table: &[i8; 6], start: usize, borrowed: bool) -> Option<String> {
+    match c13(table, start, borrowed) { Some(d) if d.starts_with("PANIC") => Some(d), _ => None }
+}
 fn c01_cp(cp: u32) -> Option<String> {
     guard("get_value_from_codepoint", || { let a = IdentifierClass::default().get_value_from_codepoint(cp); let b = FreeformClass::default().get_value_from_codepoint(cp); (a, b) }).err()
         .map(|e| format!("{} for cp {:#x}", e, cp))
@@ -410,7 +414,9 @@ fn c12(s: &str) -> Option<String> {
 fn mk_rule<F>(f: F) -> F where F: for<'b> Fn(&'b str) -> Result<Cow<'b, str>, Error> { f }
 // C13: all rule functions over a small state space: state i -> table[i] (a state or an error)
 fn c13(table: &[i8; 6], start: usize, borrowed: bool) -> Option<String> {
-    const NAMES: [&str; 6] = ["s0", "s1", "s2", "s3", "s4", "s5"];
+    // the states are strings related by prefix / emptiness / length, so a comparison that looks only at a prefix, a length or the
+    // Cow variant instead of the content is exposed
+    const NAMES: [&str; 6] = ["", "a", "ab", "abc", "b", "ba"];
     let idx = |s: &str| NAMES.iter().position(|n| *n == s).unwrap();
     let calls = std::cell::Cell::new(0usize);
     let f = mk_rule(|s: &str| {
@@ -484,6 +490,42 @@ fn c16_history(s: &str) -> Option<String> {
     }
     None
 }
+// C16, threads: N threads call the static and the instance API at the same time, starting with the very first use of the
+// lazily created static profiles; afterwards the same calls are made sequentially and must give the same results.
+fn c16_threads(seed: u64) -> Option<String> {
+    let wide: Vec<char> = (0xff21u32..0xff3b).chain(0xff41..0xff5b).chain(0xff66..0xff9e).filter_map(char::from_u32).collect();
+    let nthreads = 8usize;
+    let mut inputs: Vec<Vec<String>> = Vec::new();
+    let mut r = Rng(seed | 1);
+    for t in 0..nthreads {
+        let mut v = Vec::new();
+        for k in 0..24usize {
+            let a = wide[(t * 7 + k) % wide.len()]; let b_ = wide[(t * 13 + 3 * k + 1) % wide.len()];
+            v.push(format!("{}{}{}{}", a, b_, a, b_));
+            v.push(format!("{}x{}", a, ALPHABET[r.below(ALPHABET.len())]));
+            v.push(format!("{} {}  {}", ALPHABET[r.below(ALPHABET.len())], a, ALPHABET[r.below(ALPHABET.len())]));
+        }
+        inputs.push(v);
+    }
+    let ops = |s: &str| -> Vec<String> { vec![
+        show(&own(<UsernameCaseMapped as PrecisFastInvocation>::prepare(s))), show(&own(<UsernameCaseMapped as PrecisFastInvocation>::enforce(s))),
+        show(&own(<UsernameCasePreserved as PrecisFastInvocation>::enforce(s))), show(&own(<OpaqueString as PrecisFastInvocation>::enforce(s))),
+        show(&own(<Nickname as PrecisFastInvocation>::enforce(s))), show(&own(UsernameCaseMapped::new().enforce(s))),
+        show(&own(UsernameCasePreserved::new().prepare(s))), show(&own(Nickname::new().enforce(s))), show(&own(OpaqueString::new().enforce(s))),
+        format!("{:?}", <Nickname as PrecisFastInvocation>::compare(s, s)), format!("{:?}", <UsernameCaseMapped as PrecisFastInvocation>::compare(s, "a")),
+    ] };
+    let barrier = std::sync::Arc::new(std::sync::Barrier::new(nthreads));
+    let mut hs = Vec::new();
+    for t in 0..nthreads {
+        let my = inputs[t].clone(); let bar = barrier.clone();
+        hs.push(std::thread::spawn(move || { bar.wait(); let mut out = Vec::new(); for _round in 0..40 { for s in &my { out.push((s.clone(), ops(s))); } } out }));
+    }
+    let mut conc = Vec::new();
+    for h in hs { match h.join() { Ok(v) => conc.extend(v), Err(_) => return Some("PANIC in a thread calling the library concurrently".to_string()) } }
+    for (s, got) in conc { let exp = ops(&s); if got != exp {
+        return Some(format!("concurrent calls gave {:?} for {}, the same calls made alone give {:?}", got, esc(&s), exp)); } }
+    None
+}
 fn c18(single: bool, a: u32, b_: u32, cp: u32) -> Option<String> {
     use precis_core::Codepoints;
     use std::cmp::Ordering;
@@ -519,7 +561,10 @@ fn search(pid: &str, seed: u64, budget: usize) -> Option<(String, String)> {
         None
     };
     match pid {
-        "C01" => by_str(&c01).or_else(|| { for cp in cps_sample(seed, 4000) { if let Some(d) = c01_cp(cp) { return Some((format!("{}", cp), d)); } } None }),
+        "C01" => by_str(&c01).or_else(|| { for cp in cps_sample(seed, 4000) { if let Some(d) = c01_cp(cp) { return Some((format!("{}", cp), d)); } } None })
+            .or_else(|| { let vals: [i8; 8] = [0, 1, 2, 3, 4, 5, -1, -2]; let mut r = Rng(seed | 1);
+                for _ in 0..20000usize { let mut t = [0i8; 6]; for x in t.iter_mut() { *x = vals[r.below(8)]; }
+                    for st in 0..6 { for bw in [false, true] { if let Some(d) = c01_stab(&t, st, bw) { return Some((format!("{{\"table\":{:?},\"start\":{},\"borrowed\":{}}}", t, st, bw), d)); } } } } None }),
         "C02" => by_str(&c02),
         "C03" => by_str(&c03),
         "C04" => by_str(&c04),
@@ -543,6 +588,7 @@ fn search(pid: &str, seed: u64, budget: usize) -> Option<(String, String)> {
         "C16" => by_str(&c16).or_else(|| {
             for s in ["a b", "Guybrush Threepwood", " ", "a\u{a0}b", "A B", "\u{5d0} a"] { if let Some(d) = c16_history(s) { return Some((json_str(s), d)); } }
             for s in strs.iter().filter(|s| s.chars().count() <= 3).step_by(29).take(120) { if let Some(d) = c16_history(s) { return Some((json_str(s), d)); } }
+            for k in 0..3u64 { if let Some(d) = c16_threads(seed.wrapping_add(k)) { return Some((format!("\"threads seed {}\"", seed.wrapping_add(k)), d)); } }
             None }),
         "C15" => { let n = if budget > 50000 { 4000 } else { 400 }; for i in 0..n { if let Some(x) = gen15::check(seed.wrapping_mul(1000003).wrapping_add(i)) { return Some((x.0, x.1)); } } None }
         "C18" => { let pts = [0u32, 1, 2, 3, 4, 5, 6, u32::MAX - 2, u32::MAX - 1, u32::MAX];
@@ -579,6 +625,20 @@ fn exhaustive(name: &str) -> i32 {
                 for probe in [format!("{}", c), format!("\u{5d0}{}", c), format!("a{}", c), format!("\u{5d0}{}\u{5d0}", c), format!("\u{627}{}\u{661}", c)] {
                     let got = own(m.directionality_rule(probe.as_str())); let exp = ref_dir_rule(&probe, true);
                     if got != exp { println!("{{\"found\":true,\"input\":{},\"detail\":{}}}", json_str(&probe), json_str(&format!("directionality_rule({}): got {}, expected {} (bidi class of U+{:04X} per UnicodeData: {})", esc(&probe), show(&got), show(&exp), cp, bname(c)))); return 1; } } } }
+            println!("{{\"found\":false,\"evaluated\":{}}}", n); 0 }
+        // C11 / C04: width mapping of EVERY scalar value, alone and after a multi-byte / an already mapped character, through the public rule
+        "width_cp" => { let m = UsernameCasePreserved::new(); let mut n = 0u64;
+            for cp in 0..=0x10ffffu32 { if let Some(c) = char::from_u32(cp) { n += 1;
+                for probe in [format!("{}", c), format!("\u{e9}{}b", c), format!("\u{ff21}{}", c)] {
+                    let got = own(m.width_mapping_rule(probe.as_str())); let exp: R = Ok(ref_width(&probe));
+                    if got != exp { println!("{{\"found\":true,\"input\":{},\"detail\":{}}}", json_str(&probe), json_str(&format!("width_mapping_rule({}): got {}, expected {}", esc(&probe), show(&got), show(&exp)))); return 1; } } } }
+            println!("{{\"found\":false,\"evaluated\":{}}}", n); 0 }
+        // C10 / C04: lowercase mapping of EVERY scalar value, alone, after an unmapped multi-byte character and after a mapped one
+        "lower_cp" => { let m = UsernameCaseMapped::new(); let mut n = 0u64;
+            for cp in 0..=0x10ffffu32 { if let Some(c) = char::from_u32(cp) { n += 1;
+                for probe in [format!("{}", c), format!("\u{e9}{}b", c), format!("A{}", c)] {
+                    let got = own(m.case_mapping_rule(probe.as_str())); let exp: R = Ok(ref_lower(&probe));
+                    if got != exp { println!("{{\"found\":true,\"input\":{},\"detail\":{}}}", json_str(&probe), json_str(&format!("case_mapping_rule({}): got {}, expected {}", esc(&probe), show(&got), show(&exp)))); return 1; } } } }
             println!("{{\"found\":false,\"evaluated\":{}}}", n); 0 }
         _ => 2,
     }
